@@ -136,6 +136,9 @@ Proof.
   wb_finish.
 Qed.
 
+(* from here on balance is used only through the four lemmas above *)
+Opaque balance.
+
 (* ---------- insert ---------- *)
 
 Lemma insert_simple_WB t key value :
@@ -357,7 +360,8 @@ Lemma modify_t_WB key (f : V -> V) t : WB t -> WB (modify_t key f t).
 Proof.
   induction t as [|s l IHl k v r IHr]; intros Wt; cbn [modify_t]; [exact I|].
   cbn [WB] in Wt. destruct Wt as (Hs & Hb & Wl & Wr).
-  destruct (key ?= k); cbn [WB]; rewrite ?size_modify_t; repeat split; auto.
+  destruct (key ?= k); cbn [WB]; rewrite ?size_modify_t;
+    (split; [exact Hs|split; [exact Hb|split; auto]]).
 Qed.
 
 Lemma size_map_values_t (f : N -> V -> V) t : size (map_values_t f t) = size t.
@@ -367,7 +371,7 @@ Lemma map_values_t_WB (f : N -> V -> V) t : WB t -> WB (map_values_t f t).
 Proof.
   induction t as [|s l IHl k v r IHr]; intros Wt; cbn [map_values_t]; [exact I|].
   cbn [WB] in Wt. destruct Wt as (Hs & Hb & Wl & Wr).
-  cbn [WB]. rewrite !size_map_values_t. repeat split; auto.
+  cbn [WB]. rewrite !size_map_values_t. split; [exact Hs|split; [exact Hb|split; auto]].
 Qed.
 
 (* ---------- cached size = number of bindings ---------- *)
@@ -398,10 +402,10 @@ Proof.
     rewrite !N.pow_succ_r'.
     destruct (N.max_spec (height l) (height r)) as [(Hlt & ->)|(Hle & ->)].
     + (* right subtree is the higher one *)
-      assert (H3 : 0 < 3 ^ height r) by (apply N.pow_pos_nonneg; lia).
-      nia.
-    + assert (H3 : 0 < 3 ^ height l) by (apply N.pow_pos_nonneg; lia).
-      nia.
+      set (A := 4 ^ height r) in *. set (B := 3 ^ height r) in *. nia.
+    + set (A := 4 ^ height l) in *. set (B := 3 ^ height l) in *. nia.
 Qed.
+
+Transparent balance.
 
 End BalanceFacts.
